@@ -3,6 +3,7 @@
 //! behaviour to JSON used by both directions: `replay` (cases emitted by TLC are
 //! driven into the code) and `record` (seeded drivers log what the code does and
 //! TLC validates the log against the specification).
+pub mod dict;
 pub mod gen;
 pub mod guard;
 pub mod ops;
